@@ -117,7 +117,7 @@ PendingFor(d, m, f, g) == {c \in DOMAIN d.cbs : CbApplies(d, d.cbs[c], f, g, m.p
 BlankF == [k |-> "", has |-> FALSE, first |-> NoRes,
            ev |-> "", init |-> FALSE, qid |-> 0, from |-> "", cand |-> 0, tix |-> 0,
            src |-> "", tgt |-> "", internal |-> FALSE, phase |-> "", pending |-> {},
-           open |-> {}, res |-> <<>>, gfail |-> FALSE, caller |-> 0]
+           open |-> {}, res |-> <<>>, gfail |-> FALSE, caller |-> 0, wrote |-> FALSE]
 LoopF == [BlankF EXCEPT !.k = "loop"]
 TrigF(td, from, caller) ==
     [BlankF EXCEPT !.k = "trig", !.ev = td.ev, !.init = td.init, !.qid = td.id,
@@ -279,6 +279,13 @@ DoNestedRet(d, m, c) ==
         o == OpenOf(f, c)
     IN SetTop(m, [f EXCEPT !.open = (@ \ {o}) \cup {[o EXCEPT !.wait = "no", !.got = NoRes]}])
 
+\* callback c writes the model field itself (setattr(model, state_field, v) in the middle of the transition): whatever
+\* is written is what everybody reads from then on - until the engine's own assignment, which is unconditional
+EnCbWrite(d, m, c) ==
+    /\ TopIs(m, "trig") /\ (~m.raising \/ m.async)
+    /\ LET f == Top(m) IN IsOpen(f, c) /\ OpenOf(f, c).wait = "no" /\ CanAct(d, f, c)
+DoCbWrite(d, m, c, v) == SetTop([m EXCEPT !.cur = v], [Top(m) EXCEPT !.wrote = TRUE])
+
 \* callback c returns or raises.  A guard whose truthiness differs from what its list expects
 \* marks the candidate as rejected; before/on return values are the event's result.
 EnEndCb(d, m, c) ==
@@ -320,7 +327,7 @@ DoAdvance(d, m) ==
 EnAssign(d, m) == TopIs(m, "trig") /\ Top(m).phase = "assign" /\ ~m.raising
 DoAssign(d, m) ==
     LET f  == Top(m)
-        f1 == [f EXCEPT !.phase = "enter"]
+        f1 == [f EXCEPT !.phase = "enter", !.wrote = FALSE]
     IN SetTop([m EXCEPT !.cur = f.tgt], [f1 EXCEPT !.pending = PendingFor(d, m, f1, "enter")])
 
 EnTrigDone(d, m) == TopIs(m, "trig") /\ Top(m).phase = "done" /\ ~m.raising
@@ -382,7 +389,7 @@ OneAtATime(d, m) == (~m.async /\ TopIs(m, "trig")) =>
                        Cardinality({o \in Top(m).open : o.wait = "no"}) <= 1
 \* C02 (view of state, RTC): while a callback of phase p runs, the current state is the source
 \* for p <= on and the target for enter/after
-ViewOK(d, m) == (m.opt.rtc /\ TopIs(m, "trig") /\ IsGroup(Top(m).phase) /\ ~Top(m).init) =>
+ViewOK(d, m) == (m.opt.rtc /\ TopIs(m, "trig") /\ IsGroup(Top(m).phase) /\ ~Top(m).init /\ ~Top(m).wrote) =>
                    m.cur = IF SeesSource(Top(m).phase) THEN Top(m).src ELSE Top(m).tgt
 \* C01/C02: callbacks of a phase are only pending/open in that phase's group, and belong to
 \* the selected transition
@@ -408,7 +415,10 @@ StepFirstEnabledWins(d, m, n) ==
                              /\ n.cur = d.trans[f.tix].tgt
 \* C01/C04: the model field changes only in the Assign step (or by an outside write when idle)
 StepCurChangesOnlyInAssign(m, n) ==
-    (n.cur # m.cur /\ m.stack # <<>>) => (TopIs(m, "trig") /\ Top(m).phase = "assign")
+    (n.cur # m.cur /\ m.stack # <<>>) =>
+        \/ (TopIs(m, "trig") /\ Top(m).phase = "assign")
+        \/ (TopIs(m, "trig") /\ TopIs(n, "trig") /\ Len(n.stack) = Len(m.stack)     \* a callback wrote the field
+               /\ Top(n).wrote /\ Top(n).phase = Top(m).phase /\ Top(m).open # {})
 \* C02: group ranks of successive callback starts within one trigger never decrease and every
 \* applicable callback has run before the phase is left (Advance needs pending = {} /\ open = {})
 StepPhaseOrder(m, n) ==
